@@ -167,6 +167,9 @@ def gen_fn(item, src_text, stripped, relfile, log, dropped_hints, env):
             raise ExtractError('unsupported construct in %s: %s' % (qual, e))
     sig = _apply_rules(sig, item.get('sig_rules', []) + rules, log, sig_line, qual)
     body = _apply_rules(body, item.get('body_rules', []) + rules, log, body_line, qual)
+    if item.get('r6'):
+        from . import rules as RL6
+        body = RL6.r6_floats(body, log, body_line, qual, extra_float_vars=item.get('f64_vars', ()))
     if item.get('engine'):
         sig, body = engine_rewrite(item, sig, body, env, log, sig_line, body_line, qual)
     if impl_header is not None:
@@ -402,7 +405,10 @@ def generate(unit_name, repo=None, force_stub=()):
     env['split'] = compute_split(unit, load, env)
 
     for pre in unit.get('prelude', ['prelude.rs']):
-        out.append(Seg(open(os.path.join(VERIF, 'contracts', pre)).read(), ('prelude', pre)))
+        ptxt = open(os.path.join(VERIF, 'contracts', pre)).read()
+        if pre == 'prelude.rs' and unit.get('float_broadcast'):
+            ptxt = ptxt.replace('/*EXTRA_BROADCAST*/', ', fl::group_float')
+        out.append(Seg(ptxt, ('prelude', pre)))
     out.append(Seg('\nverus! {\n', ('spec', 'open')))
     functions = []
     for item in unit['items']:
